@@ -123,9 +123,7 @@ func TestC08(t *testing.T) {
 			if rapid.Bool().Draw(rt, "useWithoutReopen") {
 				c.Label("used-without-reopen")
 				where0 := fmt.Sprintf("after RollbackVersion(%d) of latest %d, same store object (no reopen)", target, latest)
-				if p := try(func() { ck.multistore("in-process", where0, h, rb.kvOf, h.snaps[target]) }); p != nil {
-					c.Violation("C08/in-process/read-panics", "%s: reading the working substores panicked: %v", where0, p)
-				}
+				ck.multistore("in-process", where0, h, rb.kvOf, h.snaps[target])
 				for st := range h.names {
 					is, ok := rb.ms.GetCommitStore(rb.keys[st]).(*iavl.Store)
 					if !ok {
@@ -150,12 +148,8 @@ func TestC08(t *testing.T) {
 						c.Violation("C08/in-process/retained-version-not-loadable", "%s: LoadLazyVersion(%d): %v", where0, v, verr)
 						continue
 					}
-					if p := try(func() {
-						ck.multistore("in-process-versioned", fmt.Sprintf("%s, lazy view %d", where0, v), h,
-							func(st int) stypes.KVStore { return view.GetKVStore(rb.keys[st]) }, h.snaps[v])
-					}); p != nil {
-						c.Violation("C08/in-process/read-panics", "%s: reading lazy view %d panicked: %v", where0, v, p)
-					}
+					ck.multistore("in-process-versioned", fmt.Sprintf("%s, lazy view %d", where0, v), h,
+						func(st int) stypes.KVStore { return view.GetKVStore(rb.keys[st]) }, h.snaps[v])
 				}
 			}
 
